@@ -42,31 +42,7 @@ def oracle(H):
     return oracles.liveness(H)
 
 
-def predicates(H, v):
-    return findings_sim.predicates(H, v)
+SWEEP = (10, 150)
 
-
-def adjust(case):
-    case, n = findings_sim.adjust_case(case)
-    if n:
-        case["_excluded_program"] = n
-    return case
-
-
-def hooks(w, ctx):
-    findings_sim.install_exclusions(w, ctx, ID)
-
-
-def run(tier, seed):
-    n = 4000 if tier == "quick" else 60000
-    return run_sim(ID, tier, seed, n)
-
-
-def replay(case, verbose=False):
-    if verbose:
-        import os
-        os.environ["VERIF_VERBOSE"] = "1"
-        from sim.run import replay_case
-        import importlib
-        return replay_case(importlib.import_module("props.c01"), case, verbose=True)
-    return replay_in_subprocess(ID, case)
+from props._simprop import install  # noqa: E402
+install(globals(), ID, 4000, 60000)
